@@ -662,6 +662,112 @@ fn decode_surrogates(p: &str) -> String {
     .to_string()
 }
 
+/// canonical S-expression of the regex_syntax AST (for validating the Coq parser model)
+fn ast_sexpr(p: &str) -> String {
+    use regex_syntax::ast::{self, Ast};
+    let ast = match ast::parse::Parser::new().parse(p) {
+        Ok(a) => a,
+        Err(_) => return "NONE".to_string(),
+    };
+    fn flags_of(f: &ast::SetFlags) -> Option<(bool, bool)> {
+        let mut i = false;
+        let mut x = false;
+        for it in &f.flags.items {
+            match &it.kind {
+                ast::FlagsItemKind::Flag(ast::Flag::CaseInsensitive) => i = true,
+                ast::FlagsItemKind::Flag(ast::Flag::IgnoreWhitespace) => x = true,
+                _ => return None,
+            }
+        }
+        Some((i, x))
+    }
+    fn item(i: &ast::ClassSetItem, out: &mut Vec<String>) -> bool {
+        match i {
+            ast::ClassSetItem::Empty(_) => true,
+            ast::ClassSetItem::Literal(l) => { out.push(format!("{}-{}", l.c as u32, l.c as u32)); true }
+            ast::ClassSetItem::Range(r) => { out.push(format!("{}-{}", r.start.c as u32, r.end.c as u32)); true }
+            ast::ClassSetItem::Union(u) => u.items.iter().all(|x| item(x, out)),
+            _ => false,
+        }
+    }
+    fn go(a: &Ast) -> String {
+        match a {
+            Ast::Empty(_) => "(empty)".into(),
+            Ast::Flags(_) => "(flags)".into(),
+            Ast::Literal(l) => format!("(lit {})", l.c as u32),
+            Ast::Dot(_) => "(dot)".into(),
+            Ast::Assertion(x) => match x.kind {
+                ast::AssertionKind::StartLine => "^".into(),
+                ast::AssertionKind::EndLine => "$".into(),
+                _ => "(assert)".into(),
+            },
+            Ast::ClassUnicode(_) => "(unicode-class)".into(),
+            Ast::ClassPerl(c) => {
+                let l = match (&c.kind, c.negated) {
+                    (ast::ClassPerlKind::Digit, false) => 'd',
+                    (ast::ClassPerlKind::Digit, true) => 'D',
+                    (ast::ClassPerlKind::Space, false) => 's',
+                    (ast::ClassPerlKind::Space, true) => 'S',
+                    (ast::ClassPerlKind::Word, false) => 'w',
+                    (ast::ClassPerlKind::Word, true) => 'W',
+                };
+                format!("(perl {})", l)
+            }
+            Ast::ClassBracketed(c) => {
+                if c.negated { return "(br-negated)".into(); }
+                match &c.kind {
+                    ast::ClassSet::Item(i) => {
+                        let mut out = vec![];
+                        if item(i, &mut out) { format!("(br {})", out.join(" ")) } else { "(br-other)".into() }
+                    }
+                    _ => "(br-op)".into(),
+                }
+            }
+            Ast::Repetition(r) => {
+                if !r.greedy { return "(lazy)".into(); }
+                let (lo, hi) = match &r.op.kind {
+                    ast::RepetitionKind::ZeroOrOne => (0, "1".to_string()),
+                    ast::RepetitionKind::ZeroOrMore => (0, "inf".to_string()),
+                    ast::RepetitionKind::OneOrMore => (1, "inf".to_string()),
+                    ast::RepetitionKind::Range(rg) => match rg {
+                        ast::RepetitionRange::Exactly(n) => (*n, n.to_string()),
+                        ast::RepetitionRange::AtLeast(n) => (*n, "inf".to_string()),
+                        ast::RepetitionRange::Bounded(m, n) => (*m, n.to_string()),
+                    },
+                };
+                format!("(rep {} {} {})", lo, hi, go(&r.ast))
+            }
+            Ast::Group(g) => match &g.kind {
+                ast::GroupKind::CaptureIndex(_) => format!("(grp cap {})", go(&g.ast)),
+                ast::GroupKind::NonCapturing(f) if f.items.is_empty() => format!("(grp non {})", go(&g.ast)),
+                _ => "(grp-other)".into(),
+            },
+            Ast::Alternation(al) => format!("(alt {})", al.asts.iter().map(go).collect::<Vec<_>>().join(" ")),
+            Ast::Concat(c) => format!("(cat {})", c.asts.iter().map(go).collect::<Vec<_>>().join(" ")),
+        }
+    }
+    // leading flags item
+    let (fl, body): (String, String) = match &ast {
+        Ast::Flags(f) => match flags_of(f) {
+            Some((i, x)) => (format!("{}{}", if i { "i" } else { "" }, if x { "x" } else { "" }), "(empty)".into()),
+            None => ("".into(), go(&ast)),
+        },
+        Ast::Concat(c) => match c.asts.first() {
+            Some(Ast::Flags(f)) => match flags_of(f) {
+                Some((i, x)) => {
+                    let rest: Vec<String> = c.asts[1..].iter().map(go).collect();
+                    let b = if rest.len() == 1 { rest[0].clone() } else { format!("(cat {})", rest.join(" ")) };
+                    (format!("{}{}", if i { "i" } else { "" }, if x { "x" } else { "" }), b)
+                }
+                None => ("".into(), go(&ast)),
+            },
+            _ => ("".into(), go(&ast)),
+        },
+        _ => ("".into(), go(&ast)),
+    };
+    format!("flags={} {}", fl, body)
+}
+
 /// counted repetitions in the AST: (min, max, minimal match length of operand in chars)
 fn counted_reps(p: &str) -> Result<Vec<(u32, u32, usize)>, String> {
     use regex_syntax::ast::{self, Ast};
@@ -1066,6 +1172,13 @@ fn main() {
                 if l.trim().is_empty() { continue; }
                 let case: Value = serde_json::from_str(&l).expect("case json");
                 writeln!(w, "{}", wasm_case(&case)).unwrap();
+            }
+        }
+        "ast" => {
+            // one pattern per line, as a JSON array of code points
+            for l in stdin.lock().lines() {
+                let v: Value = serde_json::from_str(&l.unwrap()).unwrap();
+                writeln!(w, "{}", ast_sexpr(&str_of(&v))).unwrap();
             }
         }
         "setters" => {
